@@ -2,6 +2,8 @@
 
 package util
 
+import "regexp"
+
 // Read-only accessors used by the verification harness in /verif.
 // This file is compiled only with the build tag "verif".
 
@@ -51,4 +53,9 @@ func VerifCaseFoldings() map[rune][]rune {
 // VerifBytesHash exposes bytesHash.
 func VerifBytesHash(b []byte) uint64 {
 	return bytesHash(b)
+}
+
+// VerifRegexps returns the compiled regular expressions of this package.
+func VerifRegexps() map[string]*regexp.Regexp {
+	return map[string]*regexp.Regexp{"emailDomain": emailDomainRegexp}
 }
